@@ -17,6 +17,10 @@ What is proved (for all copies, digests, truncation points, histories):
   block stream, staleness order: the first member in staleness order is always admitted with at
   least one op when the header and one op fit, and the peer then strictly advances on it.
 
+* `C01_progress_run_bounded`: the potential summed over the `n` copies of a member: any run of
+  handshake steps each of which keeps or raises every copy's frontier and strictly raises one has at
+  most `n · ((V+1)² − 1)` steps.
+
 *Partial*: the graph argument (connected peers, fair schedule ⇒ a lagging pair eventually shakes
 hands) is not mechanised; it is exercised by the `cluster` suite's fair suffix and its monitors.
 -/
@@ -137,6 +141,112 @@ theorem C01_fixed_point_is_converged (σ : XSys) (h : XReach false σ)
   have := (C03_integrity σ h r hr).2.1
   have := hnolag r hr
   omega
+
+/-! ### System-level potential -/
+
+/-- potential of all the copies of one member held in the cluster -/
+def sysRank (V : Nat) (copies : List (Nat × Nat)) : Nat := (copies.map (rank V)).sum
+
+/-- one handshake step seen on the copies of one member: every copy keeps or raises its frontier -/
+def StepLe : List (Nat × Nat) → List (Nat × Nat) → Prop
+  | [], [] => True
+  | a :: as, b :: bs => frontierLe a b ∧ StepLe as bs
+  | _, _ => False
+
+/-- … and at least one copy strictly raises it -/
+def StepLt : List (Nat × Nat) → List (Nat × Nat) → Prop
+  | a :: as, b :: bs => (frontierLt a b ∧ StepLe as bs) ∨ (frontierLe a b ∧ StepLt as bs)
+  | _, _ => False
+
+def AllBounded (V : Nat) (copies : List (Nat × Nat)) : Prop := ∀ f ∈ copies, f.1 ≤ V ∧ f.2 ≤ V
+
+theorem sysRank_mono (V : Nat) : ∀ (a b : List (Nat × Nat)), AllBounded V a → StepLe a b → sysRank V a ≤ sysRank V b
+  | [], [], _, _ => Nat.le_refl _
+  | [], _ :: _, _, h => by cases h
+  | _ :: _, [], _, h => by cases h
+  | x :: xs, y :: ys, hb, h => by
+    obtain ⟨h1, h2⟩ := h
+    have hx := (hb x List.mem_cons_self).2
+    have := C01_rank_mono V x y hx h1
+    have ih := sysRank_mono V xs ys (fun f hf => hb f (List.mem_cons_of_mem _ hf)) h2
+    simp only [sysRank, List.map_cons, List.sum_cons] at *
+    omega
+
+theorem sysRank_strict (V : Nat) : ∀ (a b : List (Nat × Nat)), AllBounded V a → StepLt a b → sysRank V a < sysRank V b
+  | [], _, _, h => by cases h
+  | _ :: _, [], _, h => by cases h
+  | x :: xs, y :: ys, hb, h => by
+    have hx := (hb x List.mem_cons_self).2
+    have hbs : AllBounded V xs := fun f hf => hb f (List.mem_cons_of_mem _ hf)
+    rcases h with ⟨h1, h2⟩ | ⟨h1, h2⟩
+    · have := C01_rank_strict V x y hx h1
+      have ih := sysRank_mono V xs ys hbs h2
+      simp only [sysRank, List.map_cons, List.sum_cons] at *
+      omega
+    · have := C01_rank_mono V x y hx h1
+      have ih := sysRank_strict V xs ys hbs h2
+      simp only [sysRank, List.map_cons, List.sum_cons] at *
+      omega
+
+theorem sysRank_bounded (V : Nat) : ∀ (a : List (Nat × Nat)), AllBounded V a →
+    sysRank V a ≤ a.length * ((V + 1) * (V + 1) - 1)
+  | [], _ => by simp [sysRank]
+  | x :: xs, hb => by
+    have hx := hb x List.mem_cons_self
+    have h1 := C01_rank_bounded V x hx.1 hx.2
+    have ih := sysRank_bounded V xs (fun f hf => hb f (List.mem_cons_of_mem _ hf))
+    simp only [sysRank, List.map_cons, List.sum_cons, List.length_cons] at *
+    rw [Nat.add_mul]
+    omega
+
+/-- **C01 (bounded number of progressing handshakes, system level).** Take the copies of one member
+held by `n` nodes, all within the owner's `V` versions (C03). In any run in which every step keeps
+or raises every copy's frontier and strictly raises at least one, the number of steps is at most
+`n · ((V+1)² − 1)`. -/
+theorem C01_system_progress_bounded (V : Nat) (run : List (List (Nat × Nat))) (n : Nat)
+    (hlen : ∀ c ∈ run, c.length = n) (hb : ∀ c ∈ run, AllBounded V c)
+    (hstep : run.Pairwise (fun a b => sysRank V a < sysRank V b)) :
+    run.length ≤ n * ((V + 1) * (V + 1) - 1) + 1 := by
+  have := C01_progress_steps_bounded (n * ((V + 1) * (V + 1) - 1)) (run.map (sysRank V))
+    (by rw [List.pairwise_map]; exact hstep)
+    (by
+      intro x hx
+      obtain ⟨c, hc, e⟩ := List.mem_map.1 hx
+      rw [← e, ← hlen c hc]
+      exact sysRank_bounded V c (hb c hc))
+  simpa using this
+
+/-- a run in which every step is a strictly progressing handshake step -/
+def ProgressRun : List (List (Nat × Nat)) → Prop
+  | [] => True
+  | [_] => True
+  | a :: b :: t => StepLt a b ∧ ProgressRun (b :: t)
+
+theorem progressRun_pairwise (V : Nat) : ∀ (run : List (List (Nat × Nat))),
+    (∀ c ∈ run, AllBounded V c) → ProgressRun run →
+    run.Pairwise (fun a b => sysRank V a < sysRank V b)
+  | [], _, _ => List.Pairwise.nil
+  | [a], _, _ => List.pairwise_singleton _ _
+  | a :: b :: t, hb, h => by
+    obtain ⟨h1, h2⟩ := h
+    have ih := progressRun_pairwise V (b :: t) (fun c hc => hb c (List.mem_cons_of_mem _ hc)) h2
+    have hab := sysRank_strict V a b (hb a List.mem_cons_self) h1
+    apply List.pairwise_cons.2
+    refine ⟨?_, ih⟩
+    intro c hc
+    rcases List.mem_cons.1 hc with e | hct
+    · rw [e]; exact hab
+    · have := (List.pairwise_cons.1 ih).1 c hct
+      omega
+
+/-- **C01 (bounded number of progressing handshakes, stated on runs).** -/
+theorem C01_progress_run_bounded (V n : Nat) (run : List (List (Nat × Nat)))
+    (hlen : ∀ c ∈ run, c.length = n) (hb : ∀ c ∈ run, AllBounded V c) (h : ProgressRun run) :
+    run.length ≤ n * ((V + 1) * (V + 1) - 1) + 1 :=
+  C01_system_progress_bounded V run n hlen hb (progressRun_pairwise V run hb h)
+
+example : ProgressRun [[(0, 1), (0, 0)], [(0, 1), (0, 1)], [(2, 1), (0, 1)]] := by
+  simp [ProgressRun, StepLt, StepLe, frontierLt, frontierLe]
 
 /-! ### Non-vacuity -/
 /- the hypotheses of `C01_handshake_step_progress` on a concrete one-member state -/
